@@ -42,6 +42,11 @@ DataF(name, size) == [k |-> "Data", name |-> name, size |-> size, dflt |-> <<>>,
 BitsF(name, w) == [k |-> "Bits", name |-> name, w |-> w, dflt |-> 0, mv |-> NoMv]
 EmF(name) == [k |-> "Em", name |-> name, mv |-> NoMv]
 RefF(name, cls) == [k |-> "Ref", name |-> name, cls |-> cls, over |-> <<>>, mv |-> NoMv]
+\* Ref(Sub(over), embed=True): the fields of Sub become fields of the embedding class (the n records that follow this
+\* one in the field list ARE those fields: the very field objects of Sub, with Sub's declared defaults); the reference
+\* itself is neither parsed nor serialised and holds no value of its own
+EmbF(name, cls, over, n) == [k |-> "Emb", name |-> name, cls |-> cls, over |-> over, n |-> n, mv |-> NoMv]
+Embedded(name, cls, over, subfields) == <<EmbF(name, cls, over, Len(subfields))>> \o subfields
 RefSelF(name, key, alts, form, dflt) ==
     [k |-> "RefSel", name |-> name, key |-> key, alts |-> alts, form |-> form, dflt |-> dflt, mv |-> NoMv]
 RefSelSharedF(name, key, alts, table, dflt) ==     \* the option table object is shared by several fields
